@@ -30,6 +30,8 @@ type PDF struct {
 	LastStreamLen int
 	// LengthOverride, when non-empty, is written as the /Length value of the next stream.
 	LengthOverride string
+	// Tr, when non-nil, receives the abstract trace of everything written (see trace.go).
+	Tr *Trace
 }
 
 func NewPDF(eol string) *PDF {
@@ -44,6 +46,7 @@ func (p *PDF) Off() int64 { return int64(p.Buf.Len()) }
 func (p *PDF) Obj(num, gen int, body string) int64 {
 	off := p.Off()
 	fmt.Fprintf(&p.Buf, "%d %d obj%s%s%sendobj%s", num, gen, p.EOL, body, p.EOL, p.EOL)
+	p.Tr.obj(TraceObj{Offset: off, Num: num, Body: []byte(body)})
 	return off
 }
 
@@ -68,6 +71,7 @@ func (p *PDF) Stream(num int, dict string, data []byte, lengthRef int) int64 {
 	fmt.Fprintf(&p.Buf, "%d 0 obj%s<< %s /Length %s >>%sstream%s", num, p.EOL, dict, l, p.EOL, seol)
 	p.Buf.Write(data)
 	fmt.Fprintf(&p.Buf, "%sendstream%sendobj%s", p.EOL, p.EOL, p.EOL)
+	p.Tr.obj(TraceObj{Offset: off, Num: num, Stream: true, Dict: []byte(fmt.Sprintf("<< %s /Length %s >>", dict, l)), Data: append([]byte(nil), data...)})
 	return off
 }
 
@@ -131,10 +135,16 @@ func (p *PDF) ObjStmRaw(num int, members []ObjStmMember, flate bool, lengthRef i
 	}
 	dict := fmt.Sprintf("/Type /ObjStm /N %s /First %s", nText, firstText)
 	if flate {
+		plain := data
 		data = Deflate(data)
+		p.Tr.deflated(data, plain)
 		dict += " /Filter /FlateDecode"
 	}
-	return p.Stream(num, dict, data, lengthRef)
+	off := p.Stream(num, dict, data, lengthRef)
+	if p.Tr != nil && len(p.Tr.Objs) > 0 {
+		p.Tr.Objs[len(p.Tr.Objs)-1].Members = append([]ObjStmMember(nil), members...)
+	}
+	return off
 }
 
 func sortedNums(entries map[int]XEntry) []int {
@@ -183,6 +193,7 @@ func (p *PDF) XrefTable(entries map[int]XEntry, trailer string, prev int64, entr
 	}
 	fmt.Fprintf(&p.Buf, "trailer%s<< %s >>%sstartxref%s%d%s%%%%EOF%s", p.EOL, tr, p.EOL, p.EOL, off, p.EOL, p.EOL)
 	p.LastXref = off
+	p.Tr.section(TraceSection{Offset: off, Entries: traceEntries(entries), Trailer: trailer, Prev: prev})
 	return off
 }
 
@@ -248,6 +259,7 @@ func (p *PDF) XrefStream(num int, entries map[int]XEntry, trailer string, prev i
 	p.Stream(num, dict, data, 0)
 	fmt.Fprintf(&p.Buf, "startxref%s%d%s%%%%EOF%s", p.EOL, off, p.EOL, p.EOL)
 	p.LastXref = off
+	p.Tr.section(TraceSection{Offset: off, Stream: true, Entries: traceEntries(entries), Trailer: trailer, Prev: prev})
 	return off
 }
 
